@@ -29,7 +29,8 @@
 
    [fx] = the pipe_stop repair is present in the source (Gen/Consts.v,
    PAIRx_STOP_WRITABLE_FIXED): pipe_stop clears the send pollable only when the
-   send buffer is full.  The pinned tree clears it unconditionally. *)
+   send buffer is full (fix 6a91792).  The tree as first pinned cleared it unconditionally
+   (fx = false; Properties_C08.pair_poll_w_mirror_refuted). *)
 From Coq Require Import List Arith NArith Bool.
 From NngV Require Import Proto.Common.
 Import ListNotations.
